@@ -231,6 +231,17 @@ def r4_outdir(run, F):
                 names = [s[0] for s in sorted(seq, key=lambda s: s[1])]
                 detail = str(names)
                 ok = names == ["set_extension:pn.ll", "create_dir_all", "write:ir"]
+    if not ok and not detail.strip("[]"):
+        # nothing of the sequence is in this body: if the then-branch hands the work to another function of the binary, this
+        # rule (which reads one body) cannot follow it -- say so instead of reporting a violation
+        from rules.core import CannotAnalyse
+        for n in walk(c["hir"]):
+            if n.get("k") == "If":
+                cond = hirq.unwrap_trivial(n["cond"])
+                if cond.get("k") == "LetExpr" and any(x.get("k") == "Path" and x.get("lid") in outdir_params for x in walk(cond["init"])):
+                    helpers = [hirq.callee(x) for x in hirq.calls(n["then"]) if (hirq.callee(x) or "") in F.bin.bodies]
+                    if helpers:
+                        raise CannotAnalyse("compile_to_ir_using_alpha hands the writing of a module's IR to %s; R4-OUT-DIR analyses one body" % helpers[0])
     run.ob("R4-OUT-DIR", "per-module .pn.ll", ok, F.where(c), "under --out-dir every module's IR is written to <out_dir>/<module>.pn.ll: %s" % detail)
     # the file name is injective in the module path: out_dir + the whole path as given + ".pn.ll" (nothing dropped or rewritten)
     lets_o = [n for n in walk(c["hir"]) if n.get("k") == "Let" and n["pat"].get("lid") in write_path_lids and "init" in n]
